@@ -20,20 +20,21 @@ coordinate of the volumes of the cross-sections, clipped at the reference.
   to end (`C12_1d`, `C12_2d_sweep`, `C12_1d_code`, `C12_2d_code`), for every argsort order;
 * three objectives (`C12_3d_code`): the general dimension-sweep branch at its top level, calling
   the 2-D sweep, is proved equal to the specification end to end as well;
-* four objectives (`C12_4d_code`), boundary points included, and any number of objectives
-  (`C12_nd_code_class`, `C12_nd_code_interior`): the nested dimension sweep (`Model.levelN` calling
-  itself) with the `ignore` flags set by outer levels, the cached `area`/`volume` arrays and the
-  shared `bounds` is proved equal to the specification, by induction over the recursion levels with
-  the invariant `Spec` (`C12_level_invariant`; `C12_ignore_sound` is the soundness of the flag
-  test) — for `m ≥ 5` under the side condition that no point touches the reference boundary in an
-  objective `3 … m−2`;
-* **partial** (`C12_nd_code_partial`): for ≥ 5 objectives *and a point on the reference boundary in
-  an objective `3 … m−2`* the model is tied to `hv` by the correspondence run only (see the comment
+* four and five objectives (`C12_4d_code`, `C12_5d_code`), boundary points included, and any number of
+  objectives (`C12_nd_code_class`, `C12_nd_code_interior`): the nested dimension sweep (`Model.levelN`
+  calling itself) with the `ignore` flags set by outer levels, the cached `area`/`volume` arrays and the
+  shared `bounds` is proved equal to the specification, by induction over the recursion levels with the
+  invariant `SpecL` (`C12_level_invariant_live`; the first version `Spec`, `C12_level_invariant`, claims
+  exactness everywhere and holds on a smaller class; `C12_ignore_sound` is the soundness of the flag
+  test) — for `m ≥ 6` under the side condition that no point touches the reference boundary in an
+  objective `4 … m−2`;
+* **partial** (`C12_nd_code_partial`): for ≥ 6 objectives *and a point on the reference boundary in
+  an objective `4 … m−2`* the model is tied to `hv` by the correspondence run only (see the comment
   at `C12_nd_code`).
 
 * the glue in `evaluator/callback.py` (`Model/HvRecorder.lean`): `ObjectiveRecorder` calls
   `hypervolume(-objectives, componentwise worst point)`; that call is inside the property's quantifier
-  (`C12_recorder_in_quantifier`), the value it computes is the specified one for 1–4 objectives
+  (`C12_recorder_in_quantifier`), the value it computes is the specified one for 1–5 objectives
   (`C12_recorder_code`), the hypervolume is monotone in the reference (`C12_ref_monotone`), hence the
   value reported along ANY stream of jobs — failures included, any length — never decreases
   (`C12_recorder_monotone`); a failure records nothing (`C12_recorder_failure`); the early-stopping
@@ -228,6 +229,21 @@ theorem C12_level_invariant (R : Run) (hR : R.OK) (j : Nat) (hj : j + 1 < R.m) :
     Spec R (j + 1) (hvRecursive true R.orders (j + 1)) :=
   spec_all hR j hj
 
+/-- **C12 (the invariant of the nested sweep, relativised to live prefixes).**  For a run in the larger
+class `Run.OK5` (boundary coordinates only in the objectives `0, 1, 2, 3, m−1` — every run with `m ≤ 5`
+objectives) every recursion level `j+1 ≥ 1` satisfies `SpecL`.  A node with a zero coordinate `3` is
+flagged `ignore` at the levels above *without* a dominating node and is then skipped at level `2`,
+where it would contribute: what is computed while it is linked there is NOT the exact cross-section
+volume (and meets a zero-width slab of the sweep of level `3`).  `SpecL` therefore claims the value,
+the cached `area[k]` / `volume[k]` (`CacheL`) only for *live* sets / prefixes — no node on the
+boundary in an objective strictly between the level and the last one (`Live`) — and a flag may be
+justified by a dominating node in front, by a zero coordinate of the node below the last objective
+(`ZeroAny`), or by a linked node in front of it in the flag's list that lies on the boundary in an objective
+at or above the flag level (`GarbZ`: the compared values were not claimed exact). -/
+theorem C12_level_invariant_live (R : Run) (hR : R.OK5) (j : Nat) (hj : j + 1 < R.m) :
+    SpecL R (j + 1) (hvRecursive true R.orders (j + 1)) :=
+  spec_all_L hR j hj
+
 /-- **C12 (four objectives, the whole function).**  Points weakly below the reference — boundary
 points included — and every argsort order: NDS pre-filter, shift, `preProcess`, the dimension sweep
 at `dimIndex = 3` calling the stateful sweep at `dimIndex = 2` (with its `ignore` flags, cached
@@ -242,20 +258,34 @@ theorem C12_4d_code (r0 r1 r2 r3 : Rat) (pts : List Vec) (order : List Nat)
       simp only [List.length_cons, List.length_nil] at hk ⊢
       omega)
 
+/-- **C12 (five objectives, the whole function).**  Points weakly below the reference — boundary
+points in ANY objective included — and every argsort order: three nested stateful sweeps
+(`dimIndex = 4, 3, 2`) above the 2-D sweep.  A point with `p[3] = ref[3]` is the first case in which the
+code computes cross-section volumes that are not exact (see `C12_level_invariant_live`). -/
+theorem C12_5d_code (r0 r1 r2 r3 r4 : Rat) (pts : List Vec) (order : List Nat)
+    (ho : OrderOK pts.length order) (hrect : Rect 5 pts)
+    (hle : ∀ p ∈ pts, wdVec p [r0, r1, r2, r3, r4] = true)
+    (hbig : ∀ p ∈ pts, ∀ k, k < 5 → negInf < co p k - co [r0, r1, r2, r3, r4] k) :
+    hypervolumeCode pts [r0, r1, r2, r3, r4] order = some (hv [r0, r1, r2, r3, r4] pts) :=
+  hypervolumeCode_nd5 [r0, r1, r2, r3, r4] pts order ho.1 ho.2 (by simp) hrect hle hbig
+    (fun _ _ k hk _ => by
+      simp only [List.length_cons, List.length_nil] at hk ⊢
+      omega)
+
 /-- **C12 (any number of objectives, the whole function).**  For every number `m ≥ 2` of objectives,
 every point set weakly below the reference (and above the code's sentinel `-1.0e308`) and every
 argsort order, `hypervolume(pointset, ref)` — NDS pre-filter, shift, `preProcess`, the nested
 dimension sweep `hvRecursive` with its `ignore` flags, cached `area`/`volume` arrays and shared
 `bounds` — returns the exact hypervolume, **provided** (`hcls`) a coordinate of a point EQUALS the
-reference's only in the objectives `0, 1, 2` or in the last one.  (No restriction for `m ≤ 4`; for
-`m ≥ 5` the excluded case is a point on the reference boundary in an objective `3 … m−2`.) -/
+reference's only in the objectives `0, 1, 2, 3` or in the last one.  (No restriction for `m ≤ 5`; for
+`m ≥ 6` the excluded case is a point on the reference boundary in an objective `4 … m−2`.) -/
 theorem C12_nd_code_class (ref : List Rat) (pts : List Vec) (order : List Nat)
     (ho : OrderOK pts.length order) (hm : 2 ≤ ref.length) (hrect : Rect ref.length pts)
     (hle : ∀ p ∈ pts, wdVec p ref = true)
     (hbig : ∀ p ∈ pts, ∀ k, k < ref.length → negInf < co p k - co ref k)
-    (hcls : ∀ p ∈ pts, ∀ k, k < ref.length → co p k = co ref k → k ≤ 2 ∨ k + 1 = ref.length) :
+    (hcls : ∀ p ∈ pts, ∀ k, k < ref.length → co p k = co ref k → k ≤ 3 ∨ k + 1 = ref.length) :
     hypervolumeCode pts ref order = some (hv ref pts) :=
-  hypervolumeCode_nd ref pts order ho.1 ho.2 hm hrect hle hbig hcls
+  hypervolumeCode_nd5 ref pts order ho.1 ho.2 hm hrect hle hbig hcls
 
 /-- … in particular for every point set strictly inside the reference box, in any number of
 objectives. -/
@@ -264,7 +294,7 @@ theorem C12_nd_code_interior (ref : List Rat) (pts : List Vec) (order : List Nat
     (hlt : ∀ p ∈ pts, ltVec p ref = true)
     (hbig : ∀ p ∈ pts, ∀ k, k < ref.length → negInf < co p k - co ref k) :
     hypervolumeCode pts ref order = some (hv ref pts) :=
-  hypervolumeCode_nd ref pts order ho.1 ho.2 hm hrect (fun p hp => wdVec_of_ltVec (hlt p hp)) hbig
+  hypervolumeCode_nd5 ref pts order ho.1 ho.2 hm hrect (fun p hp => wdVec_of_ltVec (hlt p hp)) hbig
     (fun p hp k hk heq => absurd heq (ne_of_lt (co_of_ltVec p ref k (hlt p hp) hk)))
 
 /-
@@ -276,23 +306,32 @@ reference (`wdVec p ref`, i.e. points ON the reference boundary allowed):
       (hle : ∀ p ∈ pts, wdVec p ref = true) (hbig : …above the sentinel…) :
       hypervolumeCode pts ref order = some (hv ref pts)
 
-Proved: `m = 1, 2, 3, 4` (`C12_1d_code`, `C12_2d_code`, `C12_3d_code`, `C12_4d_code`) and every `m ≥ 5`
-under `hcls` (`C12_nd_code_class`; in particular all interior point sets, `C12_nd_code_interior`).
-Missing: `m ≥ 5` with a point that has a coordinate EQUAL to the reference's in an objective
-`i ∈ 3 … m−2`.  Such a node adds nothing at every level `e > i`, is flagged `ignore` there without a
-dominating node and is then skipped also at the levels `2 ≤ d < i` where it would contribute; the
-cached areas of the nodes behind it are then not the exact cross-section volumes (observed on the
-real code: 6 % of the `area` assignments on boundary-heavy inputs, 0 on interior ones).  The result
-is still right because that node sits in the zero-width top group of list `i`, so everything computed
-while it is linked below level `i` is multiplied by `0`, and the affected caches are invalidated
-when it is unlinked — but the invariant `Spec` would have to be relativised to "not behind such a node"
-and a non-interference argument for the flags set in that zone is needed; that is not done.  (For
-`i ≤ 2` the skipped levels `2 ≤ d < i` do not exist, `i = d = 2` is itself the zero-width group, and
-a zero in the last objective is never flagged from above: these are the cases `hcls` admits.)  The
-correspondence run covers the missing case on every run.
+Proved: `m = 1, 2, 3, 4, 5` (`C12_1d_code`, `C12_2d_code`, `C12_3d_code`, `C12_4d_code`, `C12_5d_code`) and
+every `m ≥ 6` under `hcls` (`C12_nd_code_class`; in particular all interior point sets,
+`C12_nd_code_interior`).
+Missing: `m ≥ 6` with a point that has a coordinate EQUAL to the reference's in an objective
+`i ∈ 4 … m−2`.  A node `z` with a zero coordinate `i` adds nothing at every level `e > i`, is flagged
+`ignore` there without a dominating node and is then skipped also at the levels `2 ≤ d < i` where it
+would contribute; everything computed while `z` is linked below level `i` is not exact, and is
+multiplied by the zero width of the top group of list `i`.  The relativised invariant `SpecL`
+(`C12_level_invariant_live`) makes that rigorous: values and caches are claimed only for *live*
+prefixes, flags set from non-exact values are justified by `GarbZ`.  What it cannot carry for `i ≥ 4`:
+a node `x` flagged at a level `e` with `2 < e < i` from such values (`z` in front of `x` in list `e`) can be
+IN FRONT of `z` in a list `d < e`; the flag is then read at level `d` on a prefix that is live, `x` is
+skipped there although it contributes, and `area[d]` / `volume[d]` of the nodes from `x` on are wrong
+although their prefixes are live (observed in the model: about 1 run in 10³ on boundary-heavy 6–7
+objective lattice sets; never for `i = 3`, where `e = d = 2` is the only possibility — that is the case
+`justG_prefix` closes).  Those cache entries are never READ on a live prefix: when `z` is unlinked
+at level `i`, `bounds[j] ≤ z[j]` for `j < i`, and because `x` is in front of `z` in list `i` but behind it
+in list `e`, the tie rule of `preProcess` gives a `j ∈ [e, i)` with `z[j] < x[j]`, so `x` is removed at
+level `j` before any level below is entered, which lowers `bounds[d]` to `x[d]` or below.  Making this a
+level invariant needs the sets linked at the levels ABOVE the current call as ghost context (the
+witness `z` need not be linked at the level that reads the flag) and a second exemption for nodes
+with `bounds[j] < x[j]`; validated by execution (`/tmp`-experiments summarised in notes/C12.md), not
+proved.  The correspondence run covers the missing case on every run.
 -/
 
-/-- **C12 (≥ 5 objectives with boundary points in the middle objectives, partial).**  Everything around the sweep is proved
+/-- **C12 (≥ 6 objectives with boundary points in the objectives `4 … m−2`, partial).**  Everything around the sweep is proved
 without the interior hypothesis: the
 pre-filter and the shift preserve the hypervolume, and the recursion scheme the sweep implements
 (slice on the last coordinate, recurse on the cross-sections) computes `hv`.  So
@@ -324,17 +363,17 @@ theorem C12_recorder_in_quantifier (m : Nat) (objs : List Vec) (hne : objs ≠ [
     (worst (recPts objs)).length = m ∧ ∀ p ∈ recPts objs, wdVec p (worst (recPts objs)) = true :=
   ⟨worst_length (by simpa [recPts] using hne) (rect_recPts hrect), wd_worst (rect_recPts hrect)⟩
 
-/-- **C12 (recorder: what the code computes is the specified value), 1–4 objectives.**  For every
+/-- **C12 (recorder: what the code computes is the specified value), 1–5 objectives.**  For every
 history, every argsort order inside the pre-filter: `hypervolume(-objectives, worst point)` as the
 code computes it (`recValueCode`) is the exact hypervolume of ALL recorded objectives w.r.t. their
 componentwise worst point (`recValue`).  Boundary points are the rule here (each coordinate of the
-worst point is attained), which is why this rests on `C12_4d_code` / `C12_nd_code_class` and is
-limited to `m ≤ 4` like them.  `hbig`: above the code's sentinel `-1.0e308`. -/
-theorem C12_recorder_code (m : Nat) (objs : List Vec) (order : List Nat) (hm : 1 ≤ m) (hm4 : m ≤ 4)
+worst point is attained), which is why this rests on `C12_5d_code` / `C12_nd_code_class` and is
+limited to `m ≤ 5` like them.  `hbig`: above the code's sentinel `-1.0e308`. -/
+theorem C12_recorder_code (m : Nat) (objs : List Vec) (order : List Nat) (hm : 1 ≤ m) (hm5 : m ≤ 5)
     (hrect : Rect m objs) (ho : OrderOK objs.length order)
     (hbig : ∀ p ∈ recPts objs, ∀ k, k < m → negInf < co p k - co (worst (recPts objs)) k) :
     recValueCode objs order = recValue objs :=
-  recValueCode_eq objs order hm hm4 hrect ho.1 ho.2 hbig
+  recValueCode_eq objs order hm hm5 hrect ho.1 ho.2 hbig
 
 /-- **C12 (recorder: a failed job records nothing).** -/
 theorem C12_recorder_failure (st : List Vec) (jobs : List (Option Vec)) :
@@ -408,6 +447,18 @@ example : (∀ p ∈ ([[4, 1, 2, 0], [0, 4, 1, 2], [2, 0, 4, 1], [1, 2, 0, 4]] :
     hypervolumeCode [[4, 1, 2, 0], [0, 4, 1, 2], [2, 0, 4, 1], [1, 2, 0, 4]] [4, 4, 4, 4] [0, 1, 2, 3] = some 0 ∧
     hypervolumeCode [[3, 1, 2, 0], [0, 4, 1, 2], [2, 0, 3, 1], [1, 2, 0, 4]] [4, 4, 4, 4] [0, 1, 2, 3] = some 39 ∧
     hv [4, 4, 4, 4] [[3, 1, 2, 0], [0, 4, 1, 2], [2, 0, 3, 1], [1, 2, 0, 4]] = 39 := by
+  decide +kernel
+-- hypotheses of C12_5d_code: 5 objectives with points ON the reference boundary in objective 3 (and others);
+-- the nodes [1,2,0,4,1] and [0,3,1,4,2] are flagged at the top level without a dominating node; the second one is then
+-- skipped at level 2 on the linked set {[1,2,0,4,1], [0,3,1,4,2]} (copied area 6, exact cross-section 7), and a flag of
+-- level 2 is set from values that are not exact (`GarbZ`)
+example : (∀ p ∈ ([[3, 1, 2, 0, 1], [0, 3, 1, 4, 2], [2, 0, 3, 1, 0], [1, 2, 0, 4, 1], [1, 1, 1, 4, 3]] : List Vec),
+      wdVec p [4, 4, 4, 4, 4] = true) ∧
+    (∀ p ∈ ([[3, 1, 2, 0, 1], [0, 3, 1, 4, 2], [2, 0, 3, 1, 0], [1, 2, 0, 4, 1], [1, 1, 1, 4, 3]] : List Vec),
+      ∀ k, k < 5 → negInf < co p k - co [4, 4, 4, 4, 4] k) ∧
+    hypervolumeCode [[3, 1, 2, 0, 1], [0, 3, 1, 4, 2], [2, 0, 3, 1, 0], [1, 2, 0, 4, 1], [1, 1, 1, 4, 3]] [4, 4, 4, 4, 4]
+      [0, 1, 2, 3, 4] = some 141 ∧
+    hv [4, 4, 4, 4, 4] [[3, 1, 2, 0, 1], [0, 3, 1, 4, 2], [2, 0, 3, 1, 0], [1, 2, 0, 4, 1], [1, 1, 1, 4, 3]] = 141 := by
   decide +kernel
 -- hypotheses of C12_nd_code_interior: 5 objectives, strictly inside the box, above the sentinel
 example : (∀ p ∈ ([[0, 1, 1, 1, 0], [0, 0, 2, 2, 0], [0, 1, 1, 0, 1]] : List Vec), ltVec p [3, 3, 3, 3, 3] = true) ∧
